@@ -486,6 +486,8 @@ let query_of_sx (x : sx) : query =
                                     | _ -> failwith "bad compound") rest }
   | _ -> failwith "bad query"
 
+let rec sels_to_list0 (l : sels) : selector list = match l with LNil -> [] | LCons (s, r) -> s :: sels_to_list0 r
+let rec segs_to_list0 (l : segs) : segment list = match l with PNil -> [] | PCons (g, r) -> g :: segs_to_list0 r
 let sx_jmatch (m : jmatch) : sx = L [sx_loc m.m_parts; sx_ustr m.m_path; sx_json m.m_val]
 let sx_node ((l, v) : loc * json) : sx = L [sx_loc l; sx_json v]
 
@@ -510,6 +512,14 @@ let run_eval (args : sx list) : sx =
             sx_result (fun ms -> L (List.map sx_jmatch ms)) afi;
             sx_result (fun vs -> L (List.map sx_json vs)) afa;
             L [A "std"; sx_bool (std_query q)]; L [A "ext"; sx_bool (ext_query q)];
+            L [A "cache"; L (List.concat (List.map (fun g -> match g with
+                 | GList items -> List.concat (List.map (fun sl -> match sl with
+                      | SFilter fe -> [L [sx_bool (any_cacheable fe);
+                                          L (List.map (fun pos -> L (List.map (fun i -> sx_int (int_of_nat i)) pos)) (cache_positions fe []))]]
+                      | _ -> []) (sels_to_list0 items))
+                 | _ -> []) (segs_to_list0 q.q_first.p_segs)))];
+            L [A "cached-run-equal"; sx_bool (finditer_c e re_full_oracle re_search_oracle q.q_first d c
+                                              = finditer e re_full_oracle re_search_oracle q.q_first d c)];
             L [A "normpaths"; L (List.map (fun (l, _) -> let np = normpath l in L [sx_ustr np; sx_bool (valid_normpath np)])
                                    (query_nodes re_full_oracle re_search_oracle e.e_keys q d c))]]
        with Unsupported_case w -> L [A "unsupported"; A w])
